@@ -412,10 +412,6 @@ func writeEvidence(path string, v *Verifier, prop, tier string, seed int, nObl, 
 	os.WriteFile(path, data, 0o644)
 }
 
-func tryReplay(o *Obligation, p *Program, repo string) map[string]interface{} {
-	return nil
-}
-
 // decideRegions re-checks known-finding regions: per finding, paths are tried
 // until one still exhibits the failure (short timeout: a region that cannot
 // be decided quickly on one path is tried on the next).
@@ -457,3 +453,4 @@ func decideRegions(regs []*Obligation) {
 		}
 	}
 }
+
